@@ -224,6 +224,22 @@ def call_builtin(it, name, args, kwargs):
         if is_fp_term(v):
             return z3.And(z3.Not(z3.fpIsNaN(v)), z3.Not(z3.fpIsInf(v)))
         return True
+    if name == 'approx':
+        return scalar_cmp('==', args[0], args[1], fp)
+    if name == 'is_scalar':
+        return not isinstance(args[0], (SArr, SCompact, SObj, list, tuple, dict)) and args[0] is not None
+    if name == 'is_vector':
+        return isinstance(args[0], SObj)
+    if name == 'is_view':
+        v, base, lo, hi = args
+        if not (isinstance(v, SArr) and isinstance(base, SArr)) or v.store is not base.store \
+                or v.part != base.part:
+            return False
+        k = ctx.fresh('vk', IntS)
+        a = v.sidx((k,))
+        b = base.sidx((scalar_arith('+', lo, k),))
+        return zand(scalar_cmp('==', v.n, scalar_arith('-', hi, lo)),
+                    *[scalar_cmp('==', x, y) for x, y in zip(a, b)])
     if name == 'ghost':
         return ctx.ghost.get(args[0])
     if name == 'Sum':
@@ -621,9 +637,14 @@ def call_pymethod(it, obj, name, args, kwargs):
                     sh = args[0] if len(args) == 1 else tuple(args)
                     if sh in (-1, (-1,)):
                         return a
+                    if isinstance(sh, tuple) and len(sh) == 1:
+                        npm.shape_eq(ctx, a.shape, sh, 'reshape extent')
+                        return a
                     raise Unsupported('reshape')
                 return a
             raise Unsupported('%s of n-d array' % name)
+        if name == 'view' and not args:
+            return a
         if name == 'astype':
             t = args[0]
             tn = t.name if isinstance(t, PyType) else None
@@ -650,7 +671,9 @@ def call_pymethod(it, obj, name, args, kwargs):
         if name == 'conj':
             return a
         if name == 'item':
-            if a.ndim == 1 and isinstance(a.n, int) and a.n == 1:
+            if a.ndim == 1:
+                if not (isinstance(a.n, int) and a.n == 1):
+                    ctx.oblige('pre@callee', 'ndarray.item(): size is 1', scalar_cmp('==', a.n, 1))
                 return a.get(0)
         if name == 'tolist':
             if a.ndim == 1 and isinstance(a.n, int):
